@@ -17,8 +17,8 @@ var smallBases = []uint32{0xFFFFFFFF, 1} // {2^32-1, 0, 2} straddles the roll-ov
 
 func reasmSpec(id string, which reasm.Which, snapshot bool, rule string, assumptions []string) *mon.CheckSpec {
 	run := func(c *mon.Ctx) {
-		nRandom := c.Pick(40_000, 3_000_000)
-		smallLen := c.Pick(4, 6)
+		nRandom := c.Pick(40_000, 20_000_000)
+		smallLen := c.Pick(4, 7)
 		ev := c.Counter("evaluations")
 		cnt := func(n string) func() { p := c.Counter(n); return func() { p.Add(1) } }
 		cOverflow, cDup, cLate, cStraddle, cOrphan, cGap, cHOL, cZero, cMulti :=
@@ -136,7 +136,7 @@ func reasmSpec(id string, which reasm.Which, snapshot bool, rule string, assumpt
 	}
 }
 
-const reasmRule = "cases = seeded random single-goroutine call histories (1-60 ops of PushMessage/Push(raw)/Push(bad)/PushMessage(nil)/Maintain over 2-8 live sequence numbers in one 2^24 window anchored at 1, 0, 2^32-6 (straddling the roll-over) or random; completing, non-completing and EOE record types; duplicates; maxInFlight in {0,1,2,3,5,8,64}; timeout 1h) each ending in Close, plus EVERY history of length <= L over 3 sequences x {non-completing, completing, EOE} + Maintain for maxInFlight in {0,1,2} and two anchors (L=4 quick, 6 thorough). distinct_nontrivial = distinct histories (by full text) in which at least one of {overflow eviction, duplicate sequence, late arrival, roll-over straddle, orphan EOE, loss gap, head-of-line blocking} occurred."
+const reasmRule = "cases = seeded random single-goroutine call histories (1-60 ops of PushMessage/Push(raw)/Push(bad)/PushMessage(nil)/Maintain over 2-8 live sequence numbers in one 2^24 window anchored at 1, 0, 2^32-6 (straddling the roll-over) or random; completing, non-completing and EOE record types; duplicates; maxInFlight in {0,1,2,3,5,8,64}; timeout 1h) each ending in Close, plus EVERY history of length <= L over 3 sequences x {non-completing, completing, EOE} + Maintain for maxInFlight in {0,1,2} and two anchors (L=4 quick, 7 thorough). distinct_nontrivial = distinct histories (by full text) in which at least one of {overflow eviction, duplicate sequence, late arrival, roll-over straddle, orphan EOE, loss gap, head-of-line blocking} occurred."
 
 var reasmAssumptions = []string{
 	"histories are executed by the real Reassembler from /repo's working tree (-tags verif); callbacks are recorded at the Stream boundary and tagged with the call that made them",
